@@ -14,10 +14,11 @@ structure SameFrame (t t' : Term) : Prop where
   w : t'.w = t.w
   sb : t'.scrollback = t.scrollback
   vis : t'.cursorVisible = t.cursorVisible
+  alt : t'.alt = t.alt
 
-theorem SameFrame.rfl' (t : Term) : SameFrame t t := ⟨rfl, rfl, rfl, rfl⟩
+theorem SameFrame.rfl' (t : Term) : SameFrame t t := ⟨rfl, rfl, rfl, rfl, rfl⟩
 theorem SameFrame.trans {a b c : Term} (x : SameFrame a b) (y : SameFrame b c) : SameFrame a c :=
-  ⟨y.h.trans x.h, y.w.trans x.w, y.sb.trans x.sb, y.vis.trans x.vis⟩
+  ⟨y.h.trans x.h, y.w.trans x.w, y.sb.trans x.sb, y.vis.trans x.vis, y.alt.trans x.alt⟩
 
 theorem putCells (cs : List TCell) (t : Term) (hpw : t.pw = false) (hfit : t.c + cs.length ≤ t.w) :
     SameFrame t (cs.foldl Term.putCell t) ∧ (cs.foldl Term.putCell t).g = t.g ∧ (cs.foldl Term.putCell t).r = t.r ∧
@@ -37,7 +38,7 @@ theorem putCells (cs : List TCell) (t : Term) (hpw : t.pw = false) (hfit : t.c +
       rw [e]
       have := ih { t.set t.r t.c x with c := t.c + 1 } (by simp [Term.set, hpw]) (by simp [Term.set] at hfit ⊢; omega)
       obtain ⟨f, g, r, gr, cc⟩ := this
-      refine ⟨⟨f.h, f.w, f.sb, f.vis⟩, g, r, ?_, ?_⟩
+      refine ⟨⟨f.h, f.w, f.sb, f.vis, f.alt⟩, g, r, ?_, ?_⟩
       · intro r' c'
         rw [gr]
         simp only [Term.set, List.length_cons]
@@ -66,7 +67,7 @@ theorem putCells (cs : List TCell) (t : Term) (hpw : t.pw = false) (hfit : t.c +
       have e : t.putCell x = { t.set t.r t.c x with pw := true } := by
         simp [Term.putCell, hpw, Term.set, hc]
       simp only [List.foldl_nil, e]
-      refine ⟨⟨rfl, rfl, rfl, rfl⟩, rfl, rfl, ?_, ?_⟩
+      refine ⟨⟨rfl, rfl, rfl, rfl, rfl⟩, rfl, rfl, ?_, ?_⟩
       · intro r' c'
         simp only [Term.set, List.length_cons, List.length_nil]
         by_cases h2 : r' = t.r ∧ c' = t.c
@@ -110,7 +111,7 @@ theorem writeRow (t : Term) (row : Nat) (cs : List TCell) (hrow : row < t.h) (hl
     have hc2 : t2.c = cs.length := by simpa [t1] using hc.1
     have hr2 : t2.r = row := r
     have her : t2.erased = blank := erased_blank t2 rfl
-    refine ⟨⟨⟨f.h, f.w, f.sb, f.vis⟩, ?_, rfl⟩, ?_⟩
+    refine ⟨⟨⟨f.h, f.w, f.sb, f.vis, f.alt⟩, ?_, rfl⟩, ?_⟩
     · intro r' hr' c
       simp only [Term.step, hr2, her]
       rw [if_neg (by omega), gr2, if_neg (by omega)]
@@ -120,7 +121,7 @@ theorem writeRow (t : Term) (row : Nat) (cs : List TCell) (hrow : row < t.h) (hl
       · rw [if_pos ⟨trivial, h⟩, List.getElem?_eq_none h]; rfl
       · rw [if_neg (by omega), gr2, if_pos ⟨rfl, by omega⟩]
   · simp only [if_neg hlt, List.append_nil, exec_cons, exec_nil, e1, e2]
-    refine ⟨⟨⟨f.h, f.w, f.sb, f.vis⟩, ?_, rfl⟩, ?_⟩
+    refine ⟨⟨⟨f.h, f.w, f.sb, f.vis, f.alt⟩, ?_, rfl⟩, ?_⟩
     · intro r' hr' c
       rw [gr2, if_neg (by omega)]
     · intro c hcw
@@ -132,7 +133,7 @@ theorem blankRow (t : Term) (row : Nat) (hrow : row < t.h) (hbg : t.g.bg = none)
     RowStep t (exec t [.cup row 0, .el0, .el1]) row ∧ Shows (exec t [.cup row 0, .el0, .el1]) row [] := by
   have a : min row (t.h - 1) = row := by omega
   have her : t.erased = blank := erased_blank t hbg
-  refine ⟨⟨⟨rfl, rfl, rfl, rfl⟩, ?_, hbg⟩, ?_⟩
+  refine ⟨⟨⟨rfl, rfl, rfl, rfl, rfl⟩, ?_, hbg⟩, ?_⟩
   · intro r' hr' c
     simp only [exec_cons, exec_nil, Term.step, a]
     rw [if_neg (by omega), if_neg (by omega)]
